@@ -23,6 +23,7 @@ package common
 //@   modifies tx.Outputs, tx.Outputs[..cap]
 //@   ensures [appended] len(tx.Outputs) == old(len(tx.Outputs)) + 1 &&
 //@       (forall k int :: 0 <= k && k < old(len(tx.Outputs)) ==> tx.Outputs[k] == old(tx.Outputs[k]))
+//@   ensures [block] fresh(tx.Outputs) || (arr(tx.Outputs) == old(arr(tx.Outputs)) && old(cap(tx.Outputs)) > old(len(tx.Outputs)))
 //@   ensures [new] tx.Outputs[old(len(tx.Outputs))] != nil && fresh(tx.Outputs[old(len(tx.Outputs))]) && allocated(tx.Outputs[old(len(tx.Outputs))]) &&
 //@       val(tx.Outputs[old(len(tx.Outputs))].Amount) == val(amount) && tx.Outputs[old(len(tx.Outputs))].Type == ot
 //@   loop 0 invariant out != nil && fresh(out) && fresh(out.Keys) && val(out.Amount) == val(amount) && out.Type == ot && crypto.CanonicalScalarKey(r)
